@@ -26,6 +26,7 @@ type FuncResult struct {
 // genFunc generates the obligations of one function. mode: "full" (contracts) or "safety".
 func genFunc(w *World, fi *FuncInfo, mode string) (res *FuncResult) {
 	th := newTheory(w.Externs)
+	th.installConstPointees(w)
 	fv := &FuncVC{w: w, fi: fi, th: th, info: fi.Pkg.TypesInfo, counters: map[string]int{}, heapSort: map[string]Sort{},
 		usedExterns: map[string]bool{}, unknownCalls: map[string]bool{}, mode: mode, calledContracts: map[string]bool{}, freshRefs: map[string]bool{}, loopDescCount: map[string]int{}}
 	res = &FuncResult{FI: fi, Th: th, Mode: mode}
@@ -215,6 +216,7 @@ func litInfo(w *World, fi *FuncInfo, k int) (*FuncInfo, *ast.FuncLit) {
 // captures are arbitrary (plus the requires clauses), its results are result1..n.
 func genLit(w *World, li *FuncInfo, fl *ast.FuncLit) (res *FuncResult) {
 	th := newTheory(w.Externs)
+	th.installConstPointees(w)
 	fv := &FuncVC{w: w, fi: li, th: th, info: li.Pkg.TypesInfo, counters: map[string]int{}, heapSort: map[string]Sort{},
 		usedExterns: map[string]bool{}, unknownCalls: map[string]bool{}, mode: "full", calledContracts: map[string]bool{},
 		freshRefs: map[string]bool{}, loopDescCount: map[string]int{}}
